@@ -1805,6 +1805,14 @@ func (sc *serverConn) processData(f *DataFrame) error {
 	if f.Length > 0 {
 		// Check whether the client has flow control quota.
 		if !takeInflows(&sc.inflow, &st.inflow, f.Length) {
+			// The frame exceeds the stream's window (or the connection's).
+			// It is answered with a stream error, so it still has to be
+			// accounted against the connection-level window (RFC 9113,
+			// Section 6.9); its flow control is returned right away since
+			// the data is dropped.
+			if sc.inflow.take(f.Length) {
+				sc.sendWindowUpdate(nil, int(f.Length)) // conn-level
+			}
 			return sc.countError("flow_on_data_length", streamError(id, ErrCodeFlowControl))
 		}
 
